@@ -53,6 +53,8 @@ def check_inprocess(sc, junk1, junk2):
     r1 = _run(sc, junk1)
     r2 = _run(sc, junk2)
     vs = []
+    if r1.timed_out or r2.timed_out:
+        return vs, r1, None  # a wall-budget expiry is inconclusive, never a difference between the runs
     if r1.crash or r2.crash:
         if bool(r1.crash) != bool(r2.crash):
             vs.append(Violation(PROP, "C14/rerun/crash-only-once", f"one of two identical seeded runs raised: {(r1.crash or r2.crash)[0]}"))
